@@ -620,8 +620,14 @@ def explore(ctx, b, w, table, required, n_extra):
         m = loaded[(plugin, path)]
         spec, ae = row_spec(plugin, path, m)
         gated = (plugin in ('Owner', 'Admin', 'VtGate') or (plugin, path) in req_by_row)
-        for role in (base_roles + ['byname'] if plugin in ('Owner', 'Admin', 'VtGate') else base_roles):
-            reps = [('char', 'direct'), ('private', 'qualified')] if gated else [('char', 'direct')]
+        if gated or ctx.thorough:
+            row_roles = base_roles + ['byname'] if plugin in ('Owner', 'Admin', 'VtGate') else base_roles
+        else:
+            # ungated rows (quick tier): the roles that differ in outcome, plus one of the others in rotation
+            others = ['admin', 'chanop', 'ignoredb', 'secure']
+            row_roles = ['owner', 'plain', 'unreg', 'ignored', others[(k + ctx.seed) % 4]]
+        for role in row_roles:
+            reps = [('char', 'direct'), ('private', 'qualified')] if gated else []
             if ctx.thorough and gated:
                 reps = combos[k % 3::3]       # every (form, wrapper) pair is met by a third of the roles of each row
             else:
